@@ -609,7 +609,7 @@ theorem closure_kept_content (d : StyleDoc) (hw : WellNamed codeCfg.sp d.auto) (
     (he : e ∈ kidsOf d.auto) (hn : styleNameOf e = some v)
     (hr : Reach (refsNode (specCfg schemaSingle schemaListTyped)) [d.body] d.auto v) :
     e ∈ contentKept codeCfg d := by
-  have hr' : Reach (refsNode (specCfg schemaSingle schemaListTyped)) [d.styles, d.auto, d.body] d.auto v :=
+  have hr' : Reach (refsNode (specCfg schemaSingle schemaListTyped)) [d.styles, d.body] d.auto v :=
     Reach.mono_roots (by intro x hx; simp only [List.mem_singleton] at hx; subst hx; simp) hr
   exact closure_kept codeCfg _ _ schema_refs_followed.1 schema_refs_followed.2.1 xmlSpace_split _ _ hw e v he hn hr'
 
@@ -652,6 +652,22 @@ theorem kept_closed (C : Cfg) (segs : List Node) (auto s e : Node) (v : Str)
   obtain ⟨hsk, w, hw, hr⟩ := (kept_iff C segs auto s).mp hs
   exact (kept_iff C segs auto e).mpr ⟨he, v, hn, Reach.step hr hsk hw hv⟩
 
+/-- **C10 (nothing unreferenced)**: an automatic style whose name is not reachable from the scanned
+    containers is not written — in particular one that only an *unused* automatic style refers to
+    (since ff5b530 `office:automatic-styles` is not a seed of content.xml any more). -/
+theorem not_kept_of_unreachable (C : Cfg) (segs : List Node) (auto e : Node)
+    (h : ∀ v, styleNameOf e = some v → ¬ Reach (refsNode C) segs auto v) : e ∉ usedAuto C segs auto := by
+  intro hk
+  obtain ⟨_, v, hv, hr⟩ := (kept_iff C segs auto e).mp hk
+  exact h v hv hr
+
+/-- content.xml is seeded from the common styles and the body; whatever is reachable from there
+    through chains of automatic styles is written, nothing else -/
+theorem contentKept_iff (C : Cfg) (d : StyleDoc) (e : Node) :
+    e ∈ contentKept C d ↔
+      e ∈ kidsOf d.auto ∧ ∃ v, styleNameOf e = some v ∧ Reach (refsNode C) [d.styles, d.body] d.auto v :=
+  kept_iff C [d.styles, d.body] d.auto e
+
 /-! ### Non-vacuity -/
 
 def X : Str := [88]
@@ -671,12 +687,23 @@ def chain : StyleDoc :=
 
 /-- the hypotheses of the closure theorems are satisfiable, and the loop really iterates: `Y` is found in
     the second round only (it precedes `X` among the automatic styles); `Z` is not kept; content.xml of the
-    document with an empty body keeps `Y` only (automatic-styles itself is scanned there) -/
+    document with an empty body keeps nothing (`X` → `Y` alone does not make `Y` used) -/
 theorem chain_kept :
     namesOf (stylesKept codeCfg chain) = [some Y, some X] ∧
     namesOf (contentKept codeCfg { chain with body := chain.master }) = [some Y, some X] ∧
-    namesOf (contentKept codeCfg chain) = [some Y] := by
+    namesOf (contentKept codeCfg chain) = [] := by
   decide
+
+/-- unused automatic style `X` refers to automatic style `Y`; the body uses neither: neither is written
+    to content.xml (before ff5b530 `Y` was) -/
+def unusedRef : StyleDoc :=
+  { styles := .elem 100 [] []
+    auto := .elem 101 [] [.elem 110 [(styleNameAttr, X), (dsn, Y)] [], .elem 112 [(styleNameAttr, Y)] []]
+    master := .elem 102 [] []
+    body := .elem 103 [] [.elem 111 [(tsn, [90])] []] }
+
+theorem unused_ref_not_written :
+    namesOf (contentKept codeCfg unusedRef) = [] ∧ namesOf (stylesKept codeCfg unusedRef) = [] := by decide
 
 theorem chain_wellNamed : WellNamed codeCfg.sp chain.auto := by
   intro e he s hs
